@@ -46,7 +46,15 @@ def _case(draw):
     nb = draw(st.integers(1, 9))
     ns = (nb - 1) * stride + draw(st.integers(2 * TAPER + 2, nbatch)) if nb > 1 else draw(st.integers(2500, max(2501, nbatch)))
     ns = int(min(max(ns, 2500), 40000))
-    if draw(st.integers(0, 3)) == 0 and nb > 1:
+    fit = draw(st.integers(0, 5))
+    if fit == 0:
+        # the recording ends exactly where a batch ends (ns == nbatch + j * stride), or one sample before / after that
+        ns = nbatch + (nb - 1) * stride + draw(st.sampled_from([0, 0, 0, -1, 1]))
+        while ns > 40000 and nb > 1:
+            nb -= 1
+            ns -= stride
+        ns = max(ns, 2500)
+    elif draw(st.integers(0, 3)) == 0 and nb > 1:
         # aim at the tail: the batch before the last ends r samples before the end of the file, so a last worker that stops
         # at nworkers * int(ns / nworkers) < ns instead of ns would never write the tail
         ns = (nb - 2) * stride + nbatch + draw(st.integers(1, 5))
@@ -166,6 +174,8 @@ def run_case(case, ctx):
     N = case["nbatch"]
     stride = N - 2 * TAPER
     nbatches = 1 if ns <= N else int(np.ceil((ns - N) / stride)) + 1
+    if (ns - N) % stride == 0 and ns >= N:
+        ctx.label("last_batch_exactly_full")
     ctx.label(spec["gen"], "kfilt" if case["k_filter"] else "car", "cbin" if case["cbin"] else "bin", "batches_%s" % (nbatches if nbatches < 3 else "3+"),
               "sat_%d" % case["nsat"], "reject" if case["reject"] else "noreject", "wrot_%s" % case["wrot"], "ns2add" if case["ns2add"] else "nopad",
               "append" if case["append"] else "noappend", "loky" if case["loky"] else "threads")
